@@ -18,10 +18,13 @@ import numpy as np
 
 __version__ = "0.0-standin"
 _count = 0
+_hook = None      # in-process observer: callable(kind, path, detail), set by the verification harness
 
 
 def _op(kind, path, detail=""):
     global _count
+    if _hook is not None:
+        _hook(kind, path, detail)
     log = os.environ.get("EXECUTORLIB_VERIF_FSLOG")
     kill = os.environ.get("EXECUTORLIB_VERIF_KILL")
     if log is None and kill is None:
